@@ -12,4 +12,5 @@ import J5V.Props.C06
 #print axioms J5V.Props.C06.C06_src_decode_switch_coverage
 #print axioms J5V.Props.C06.C06_src_scalar_kinds_covered
 #print axioms J5V.Props.C06.C06_src_any_depth_bound
+#print axioms J5V.Props.C06.C06_src_root_and_map_switches
 #print axioms J5V.Props.C06.C06_src_extractor_ok
